@@ -134,3 +134,56 @@ func runWitnesses(id string) []WitnessResult {
 	}
 	return out
 }
+
+// runBenign re-runs this checker on the stored behaviour-preserving edits of the property
+// (benign/<id>/edit*.diff): the rule set must stay silent.  Edits listed in benign/known_alarms.txt
+// (residual, documented false alarms) are skipped.
+func runBenign(id string) []WitnessResult {
+	known := map[string]bool{}
+	if b, err := os.ReadFile(filepath.Join(verifDir(), "benign", "known_alarms.txt")); err == nil {
+		for _, l := range strings.Split(string(b), "\n") {
+			f := strings.Fields(l)
+			if len(f) >= 2 && !strings.HasPrefix(l, "#") {
+				known[f[0]+" "+f[1]] = true
+			}
+		}
+	}
+	patches, _ := filepath.Glob(filepath.Join(verifDir(), "benign", id, "edit*.diff"))
+	sort.Strings(patches)
+	var out []WitnessResult
+	for _, p := range patches {
+		rel, _ := filepath.Rel(verifDir(), p)
+		if known[rel+" "+id] {
+			out = append(out, WitnessResult{Patch: rel, Result: "known-alarm (skipped)"})
+			continue
+		}
+		cmd := exec.Command(os.Args[0], id, "quick")
+		cmd.Env = append(os.Environ(), "VERIF_WITNESS_PATCH="+p, "VERIF_NO_EVIDENCE=1")
+		o, err := cmd.CombinedOutput()
+		code := 0
+		if ee, ok := err.(*exec.ExitError); ok {
+			code = ee.ExitCode()
+		} else if err != nil {
+			code = 2
+		}
+		res := WitnessResult{Patch: rel}
+		switch code {
+		case 0:
+			res.Result = "quiet"
+		case 1:
+			res.Result = "false-alarm"
+			for _, l := range strings.Split(string(o), "\n") {
+				if strings.HasPrefix(strings.TrimSpace(l), "FAILED") {
+					res.Detail = trunc(strings.TrimSpace(l), 240)
+					break
+				}
+			}
+		case exitWitnessNA:
+			res.Result = "not-applicable"
+		default:
+			res.Result = "no-verdict"
+		}
+		out = append(out, res)
+	}
+	return out
+}
